@@ -243,18 +243,24 @@ PROPS["C10"] = {
 }
 
 PROPS["C03"] = {
-    "prepare": [prep_refdecoders],
+    "prepare": [prep_refdecoders, prep_corpus],
     "units": [
         {"name": "static", "pkg": "./internal/patch", "run": "^TestVerifC03Static$", "timeout": {"quick": 400, "thorough": 2400},
          "shards": {"quick": 1, "thorough": 4}},
+        {"name": "dynamic", "pkg": "./zverif/c03", "run": "^TestVerifC03Dynamic$", "timeout": {"quick": 400, "thorough": 2400},
+         "shards": {"quick": 1, "thorough": 12}},
     ],
     "rule": "static half: every function of the test binary (pclntab) x synthetic placeholders mapped before the text, just after it, +16MiB, +256MiB, "
             "+1GiB and near +2GiB; goom's own fixRelativeAddr / fixOriginFuncToTrampoline build the trampoline, which is validated with the reference decoder "
             "(same instructions, same absolute targets, trailing immediates kept, jump back to original+prefix, no branch into the overwritten bytes, "
             "refusals leave function and placeholder unchanged). Non-trivial: a prefix with a PC-relative operand or a widened branch, or a refusal; "
-            "distinct by (function, placeholder address).",
+            "distinct by (function, placeholder address). dynamic half: a generated zoo of 20 prologue shapes (RIP-relative load/store/compare with and "
+            "without immediates, call-only bodies, tiny loops, huge frames, float constants, jump tables, spills) plus the 120 corpus functions, mocked with "
+            "their origin placeholder and a forwarding callback; the written placeholder bytes are validated statically first (never executed if "
+            "unfaithful), then the mocked function is called from goroutines of generated stack depth 0..700 and must yield the un-mocked function's "
+            "result and side effects with the callback running exactly once; refused applies leave both byte ranges unchanged and the function unmocked.",
     "assumptions": ["reference decoder is the toolchain's x86asm copy", "placeholders lie within +-2GiB of the function (they are functions of the same text segment)"],
-    "floors": [("static", "accepted", 5000), ("static", "refused", 20)],
+    "floors": [("static", "accepted", 5000), ("static", "refused", 20), ("dynamic", "origin-call", 500), ("dynamic", "origin-call/at-generated-depth", 50)],
 }
 
 PROPS["C01"] = {
